@@ -4,7 +4,7 @@ import struct
 from hypothesis import strategies as st
 
 from harness import build, gen, simnet, wire, httpref
-from harness.runner import Prop, Enumeration, held, failed
+from harness.runner import Prop, Enumeration, held, failed, inconclusive
 from props.c01 import effective_seg, compare_events
 
 SEND_ACTIONS = [["send_text", "late-€"], ["send_binary", "0001ff"], ["ping", "6c"], ["pong", "6d"],
@@ -202,7 +202,7 @@ class C08(Prop):
         if mode in ("client_first", "client_only"):
             exp_payload = self.close_payload(args)
             if "connected" not in names:
-                return failed("harness", "never connected: %s" % names, labels, nontrivial)
+                return inconclusive("never_connected", labels)
             if len(closes) != 1:
                 return failed("close_not_written", "close%s wrote %d Close frames; events %s" % (
                     tuple(args) if args else "()", len(closes), names), labels, nontrivial)
